@@ -90,8 +90,11 @@ def _vals(ch: core.Chooser, shape: tuple, kind: str, nonzero: bool = False) -> d
 
 
 _FORCED_KIND: List[Optional[str]] = [None]
-_AWKWARD: List[float] = [0.3]
-PRECISION_SENSITIVE = {"mean", "sum", "cumsum", "prod", "inner", "matmul", "outer"}  # where the width of the accumulator shows
+_AWKWARD: List[float] = [0.0]
+# reductions numpoly hands to numpy lane by lane: the width of the accumulator shows in the last bits.  (Products and
+# contractions - prod, inner, matmul, outer - are computed by numpoly's own loops in the operand precision; with inexact
+# narrow-float data they legitimately differ from numpy's wider accumulators, so they get no such data.)
+PRECISION_SENSITIVE = {"mean", "sum", "cumsum"}
 
 
 def _kind(ch: core.Chooser) -> str:
@@ -391,7 +394,7 @@ def generate(rs: int, tier: str, index: int) -> dict:
         if systematic:
             fn = names[index % len(names)]
             _FORCED_KIND[0] = ["int", "float", "largeint", "largefloat"][index // len(names)]
-        _AWKWARD[0] = 0.7 if fn in PRECISION_SENSITIVE else 0.3
+        _AWKWARD[0] = 0.7 if fn in PRECISION_SENSITIVE else 0.0
         probe = not systematic and ch.sub("precision").chance(0.05)
         if probe:
             # precision probe: a reduction/product over narrow floats holding numbers that are not exact there, so that
@@ -402,7 +405,7 @@ def generate(rs: int, tier: str, index: int) -> dict:
             spec = TABLE[fn](ch.sub("g"), fn)
         finally:
             _FORCED_KIND[0] = None
-            _AWKWARD[0] = 0.3
+            _AWKWARD[0] = 0.0
         # numpy.full(shape, poly) never dispatches (no array argument): numpoly spelling only
         if (probe or ch.chance(0.5 if fn in PRECISION_SENSITIVE else 0.2)) and not any(isinstance(a, dict) and "pyscalar" in a for a in spec["args"]):
             # narrower coefficient dtypes (the values are small and exactly representable); not together with Python
@@ -686,7 +689,9 @@ class Runner:
             if has_tie or isinstance(got, numpoly.ndpoly):
                 self.sigs.add(f"{core.H(core.jdump(step))}|{pol}|{fill}")
             # numpy's det goes through a floating-point LU factorisation; numpoly expands exactly
-            msg = _compare(want, conv, fn in TYPED, atol=1e-9 if fn == "det" else 0.0, exact=fn in EXACT)
+            # bit-for-bit only when the operands are laid out like the reference's (pairwise summation follows the memory order)
+            same_layout = not any(isinstance(a, dict) and a.get("dress") == 3 for a in step["args"])
+            msg = _compare(want, conv, fn in TYPED, atol=1e-9 if fn == "det" else 0.0, exact=fn in EXACT and same_layout)
             if msg:
                 clause = "ties-first-occurrence" if fn in ("argmax", "argmin") else ("extreme-along-axis" if fn in ORDERING else "matches-numpy")
                 self.violate(clause, fn, sid, f"[{pol}/{fill}] kwargs={step['kwargs']}: {msg}", dict(traits, env="default" if (pol, fill) == ("stable", "zero") else "adversarial"))
